@@ -453,6 +453,21 @@ static void describe_frame(struct vh_buf *b, const uint8_t *p, size_t n)
 	vh_bput(b, "\",\"rawcut\":%s}", n > 160 ? "true" : "false");
 }
 
+/* the same for the transport send calls that carried the PDU being written */
+static struct {
+	long now, to;
+} scalls[24];
+static int scalls_n;
+static void put_scalls(struct vh_buf *b)
+{
+	if (scalls_n >= 2) {
+		vh_bput(b, ",\"calls\":[");
+		for (int i = 0; i < scalls_n; i++)
+			vh_bput(b, "%s{\"now\":%ld,\"to\":%ld,\"off\":100}", i ? "," : "", scalls[i].now, sat(scalls[i].to));
+		vh_bput(b, "]");
+	}
+	scalls_n = 0;
+}
 static void put_rcalls(struct vh_buf *b)
 {
 	if (rcalls_n < 2)
@@ -546,6 +561,7 @@ static void sent_pdu_event(const uint8_t *p, size_t n)
 			hexput(&evb, p + 12, enclen > 160 ? 160 : enclen);
 		vh_bput(&evb, "\"");
 	}
+	put_scalls(&evb);
 	ev_end(true);
 }
 static void drain_sbuf(void)
@@ -582,6 +598,7 @@ static void conn_reset(void)
 		ev_end(false);
 	}
 	sbuf_n = 0;
+	scalls_n = 0;
 	query_in_sbuf = false;
 	send_failed_on_conn = false;
 	got_error_report = false;
@@ -716,8 +733,14 @@ static int t_send(const void *s, const void *pdu, const size_t len, const time_t
 	if (sbuf_n > 0 && timeout <= 0 && conn_open && !done) {
 		/* the client's send deadline has passed in the middle of a PDU: a transport asked to wait no time at all
 		 * reports that it would block; the PDU stays incomplete and the client must give the connection up */
+		if (scalls_n < 24) {
+			scalls[scalls_n].now = (long)vnow;
+			scalls[scalls_n].to = (long)timeout;
+			scalls_n++;
+		}
 		ev_begin("sendfail");
 		vh_bput(&evb, ",\"kind\":\"deadline\",\"partial\":%zu", sbuf_n);
+		put_scalls(&evb);
 		ev_end(false);
 		send_failed_on_conn = true;
 		if (query_in_sbuf && exq_i < exq_n)
@@ -786,6 +809,14 @@ static int t_send(const void *s, const void *pdu, const size_t len, const time_t
 		n = sizeof(sbuf) - sbuf_n;
 	bool was_query_start = starts_query;
 	uint8_t qcopy[12] = {0};
+
+	if (sbuf_n == 0)
+		scalls_n = 0; /* a new PDU begins */
+	if (scalls_n < 24) {
+		scalls[scalls_n].now = (long)vnow;
+		scalls[scalls_n].to = (long)timeout;
+		scalls_n++;
+	}
 
 	memcpy(sbuf + sbuf_n, p, n);
 	sbuf_n += n;
